@@ -33,14 +33,15 @@ RULE = ("cases: matrix-product chains of every length 2..8 x every root x open-l
         "of its constructor (root not 0, padding, dimension != 2, > 1 chain, non-identity leg assignment, "
         "branching tree, grid with both directions, J or g outside {0, 1})")
 PARTIAL = [
-    "value-level faithfulness (tensor contents, zero padding, product-state values) is decided per input by the "
-    "dense oracle; the Lean theorems cover the index logic only (chain structure and leg order, grid pair list, "
-    "Ising term multiset, leg bookkeeping of from_tensor)",
-    "numerical exactness of the QR/SVD factorisations inside TTNO.from_tensor is by contract (checked to 1e-9 on "
-    "every case)",
-    "star, fork and binary constructors have no Lean model: oracle only",
-    "F-C19a: the 2-D Ising builders omit the field term on a 1x1 grid (theorem ising_grid_terms_partial excludes "
-    "rows*cols = 1; witness ising_grid_1x1_empty)",
+    "value-level faithfulness (tensor contents, zero padding of bonds, product-state values, operator matrices) is "
+    "decided per input by the dense oracle; the Lean theorems cover the index logic only: chain structure and leg "
+    "order (mps_chain_structure), grid pair list (nn_pairs_grid), Ising term multisets (ising_terms, "
+    "ising_pairs_terms), transposition and leg bookkeeping of from_tensor (qr_shape_perm, from_tensor_legs)",
+    "numerical exactness of the QR/SVD factorisations inside TTNO.from_tensor is by contract (contraction compared "
+    "with the input to 1e-9 on every case); bond dimensions and leg dimensions are not modelled",
+    "star, fork and binary-tree constructors and the exact dense builders have no Lean model: dense oracle only",
+    "F-C19a: the 2-D Ising builders omit the field term on a 1x1 grid; theorem ising_grid_terms_partial assumes "
+    "rows*cols >= 2, theorem ising_grid_1x1_empty is the witness of the negation",
 ]
 ASSUMPTIONS = [
     "NumPy einsum/tensordot/kron/pad semantics; dict and list iteration orders of CPython",
@@ -140,7 +141,7 @@ def gen_cases(ctx):
     rng = ctx.rng
     cases = []
     # ---- (a) matrix-product chains: every length x every root, a few configurations each
-    reps = ctx.n(2, 8)
+    reps = ctx.n(6, 24)
     for n in range(2, 9):
         for r in range(n):
             for rep in range(reps):
@@ -186,7 +187,7 @@ def gen_cases(ctx):
             for v in vs:
                 cases.append({"kind": "starconst", "L": L, "C": C, "d": d, "v": v,
                               "prefix": rng.choice(["site", "site", "ch"])})
-    for _ in range(ctx.n(40, 400)):
+    for _ in range(ctx.n(200, 1500)):
         C = rng.randint(1, 4)
         lens = [rng.randint(1, 3) for _ in range(C)]
         # schedule: chain c may start only after chain c-1 started
@@ -213,7 +214,7 @@ def gen_cases(ctx):
                     d = 2
                 cases.append({"kind": "forkconst", "w": w, "h": h, "bd": bd, "d": d, "seed": rng.randrange(10 ** 9),
                               "prefixes": rng.choice([["main", "sub"], ["m", "s"]])})
-    for _ in range(ctx.n(40, 400)):
+    for _ in range(ctx.n(200, 1500)):
         nmain = rng.randint(2, 4)
         sublens = [rng.randint(0, 2) for _ in range(nmain)]
         if not any(sublens):
@@ -247,16 +248,27 @@ def gen_cases(ctx):
     for par in small_trees:
         for mode in modes:
             ft.append((par, mode))
-    for _ in range(ctx.n(45, 600)):
+    for _ in range(ctx.n(300, 3000)):
         n = rng.choice([3, 4, 5, 5])
         ft.append((gen.random_parent_array(rng, n), rng.choice(modes)))
-    for par, mode in ft:
+    ft = [(par, mode, None) for par, mode in ft]
+    if ctx.tier == "thorough" or ctx.scale > 1:
+        # every leg assignment of every ordered tree with <= 4 nodes, every mode
+        for par in small_trees:
+            for pm in itertools.permutations(range(len(par))):
+                for mode in modes:
+                    ft.append((par, mode, list(pm)))
+        for par in gen.all_ordered_trees(5):
+            ft.append((par, rng.choice(modes), None))
+    for par, mode, fixed_perm in ft:
         n = len(par)
         dims = [rng.choice([1, 2, 2, 3]) for _ in range(n)]
         while int(np.prod(dims)) > 40:
             dims[rng.randrange(n)] = 1
         perm = list(range(n))
-        if rng.random() < 0.85:
+        if fixed_perm is not None:
+            perm = fixed_perm
+        elif rng.random() < 0.85:
             rng.shuffle(perm)
         order = gen.insertion_order(rng, par)
         cases.append({"kind": "fromtensor", "par": list(par), "order": order, "dims": dims, "perm": perm,
@@ -267,7 +279,7 @@ def gen_cases(ctx):
     def coupling():
         return rng.choice([rng.uniform(-2, 2), rng.uniform(-2, 2), 0.0, 1.0, -1.0, float(rng.randint(-3, 3)),
                            rng.uniform(-1e3, 1e3)])
-    for _ in range(ctx.n(60, 600)):
+    for _ in range(ctx.n(300, 2500)):
         shape = rng.choice(["tree", "tree", "chain", "pairs", "grid", "grid", "gridarr"])
         c = {"kind": "model", "shape": shape, "flipped": rng.random() < 0.5, "J": coupling(), "g": coupling(),
              "seed": rng.randrange(10 ** 9)}
@@ -285,6 +297,13 @@ def gen_cases(ctx):
             c["rows"], c["cols"] = rows, cols
             c["prefix"] = rng.choice(["q", "site", "n1_"])
         cases.append(c)
+    if ctx.tier == "thorough" or ctx.scale > 1:
+        # every ordered tree with <= 6 nodes once (term list against the model, operator against the sum)
+        for n in range(1, 7):
+            for par in gen.all_ordered_trees(n):
+                cases.append({"kind": "model", "shape": "tree", "flipped": rng.random() < 0.5, "J": coupling(),
+                              "g": coupling(), "seed": rng.randrange(10 ** 9), "par": par,
+                              "order": gen.insertion_order(rng, par)})
     # all grid sizes with <= 10 cells once (exhaustive over the small space)
     for rows in range(1, 11):
         for cols in range(1, 11):
@@ -293,9 +312,9 @@ def gen_cases(ctx):
                               "g": coupling(), "seed": rng.randrange(10 ** 9), "rows": rows, "cols": cols,
                               "prefix": "q"})
     # pure index cases for the pair list (no dense algebra): larger grids
-    for _ in range(ctx.n(30, 300)):
+    for _ in range(ctx.n(60, 600)):
         cases.append({"kind": "gridpairs", "rows": rng.randint(1, 12), "cols": rng.randint(1, 12)})
-    for _ in range(ctx.n(40, 400)):
+    for _ in range(ctx.n(200, 1500)):
         n = rng.randint(1, 6)
         par = gen.random_parent_array(rng, n)
         cases.append({"kind": "nnham", "par": par, "order": gen.insertion_order(rng, par),
@@ -303,7 +322,7 @@ def gen_cases(ctx):
                       "factor": rng.choice([None, [1, 1], [-1, 2], [3, 4], [0, 1], [-5, 3]]),
                       "value": rng.uniform(-2, 2), "symbolic": rng.random() < 0.6, "d": rng.choice([2, 2, 3]),
                       "seed": rng.randrange(10 ** 9), "single": rng.random() < 0.4})
-    for _ in range(ctx.n(25, 250)):
+    for _ in range(ctx.n(50, 800)):
         cases.append({"kind": "exact", "n": rng.randint(1, 7), "J": coupling(), "g": coupling(),
                       "flipped": rng.random() < 0.5, "d": rng.choice([2, 3]), "seed": rng.randrange(10 ** 9)})
     return cases
@@ -585,8 +604,6 @@ def _case_starconst(ctx, case, _m):
     if p:
         probs.append(p)
     if not probs:
-        if list(st.nodes["central"].children) != [f"{prefix}{c}_0" for c in range(C)]:
-            probs.append(f"children of the centre {st.nodes['central'].children} not in chain order")
         order = list(pm.keys())
         vec = dense.ttns_vector(st, order)
         e = np.zeros(d)
@@ -947,7 +964,11 @@ def _case_fromtensor(ctx, case, model_out):
         ids = sorted(leg_dict, key=lambda k: leg_dict[k])
         M = dense.ttno_matrix(ttno, ids)
         ref = T.reshape(D, D)
-        if not _close(M, ref, scale=max(1.0, float(np.abs(ref).max()) if ref.size else 1.0)):
+        # truncated mode discards singular values below 1e-10 * sigma_max: scale by the operator norm there
+        scale = max(1.0, float(np.abs(ref).max()) if ref.size else 1.0)
+        if mode == "tSVD":
+            scale = max(scale, float(np.linalg.norm(ref)))
+        if not _close(M, ref, scale=scale):
             probs.append(f"contraction differs from the input operator by {np.abs(M - ref).max():.3g}")
         ctx.hyp_validated += 1
     if not np.array_equal(T_in, T):
